@@ -36,17 +36,17 @@ Lemma sstep_ws_idem s k : is_ws k = true -> ws_stable (sstep s k).
 Proof.
   intros Hk k' Hk'. destruct s as [q m].
   destruct k; try discriminate; destruct k'; try discriminate;
-    destruct q as [[]|[|[]]|[|[]]|[]|[]|[]|[]]; destruct m; reflexivity.
+    destruct q as [[]|[|[]]|[|[]]|[]|[]|[]|[] []]; destruct m; reflexivity.
 Qed.
 Lemma sstep_ws_same s k : is_ws k = true -> sstep s k = sstep s kSp.
 Proof.
   intros Hk. destruct s as [q m]. destruct k; try discriminate; [reflexivity|].
-  destruct q as [[]|[|[]]|[|[]]|[]|[]|[]|[]]; destruct m; reflexivity.
+  destruct q as [[]|[|[]]|[|[]]|[]|[]|[]|[] []]; destruct m; reflexivity.
 Qed.
 Lemma tguard_ws s k : is_ws k = true -> tguard s k = true.
 Proof.
   intros Hk. destruct s as [q m]. destruct k; try discriminate;
-    destruct q as [[]|[|[]]|[|[]]|[]|[]|[]|[]]; destruct m; reflexivity.
+    destruct q as [[]|[|[]]|[|[]]|[]|[]|[]|[] []]; destruct m; reflexivity.
 Qed.
 
 Lemma sfold_cons s c cs : sfold s (c :: cs) = sfold (sstep s (cls_of c)) cs.
@@ -82,16 +82,17 @@ Fixpoint fnb (cs : list ascii) : option cls :=
   | c :: r => if is_ws (cls_of c) then fnb r else Some (cls_of c)
   end.
 
-Definition is_sdir (q : sq) : bool := match q with SDir _ => true | _ => false end.
+Definition is_sdir (q : sq) : bool := match q with SDir _ _ => true | _ => false end.
 Definition is_sbol (q : sq) : bool := match q with SBol _ => true | _ => false end.
 
-Lemma sfold_dir cs : forall k m, sfold (SDir k, m) cs = (SDir k, m).
-Proof. induction cs as [|c cs IH]; intros k m; [reflexivity|]. rewrite sfold_cons. cbn [sstep]. apply IH. Qed.
+Definition dfold (d : dsub) (cs : list ascii) : dsub := fold_left (fun d c => dstep d (cls_of c)) cs d.
+Lemma sfold_dir cs : forall k d m, sfold (SDir k d, m) cs = (SDir k (dfold d cs), m).
+Proof. induction cs as [|c cs IH]; intros k d m; [reflexivity|]. rewrite sfold_cons. cbn [sstep]. apply IH. Qed.
 
 Lemma sstep_inside q m k : is_sbol q = false -> is_sdir q = false ->
   is_sbol (fst (sstep (q, m) k)) = false /\ is_sdir (fst (sstep (q, m) k)) = false.
 Proof.
-  intros H1 H2. destruct q as [[]|[|[]]|[|[]]|[]|[]|[]|[]]; try discriminate; destruct k; destruct m; split; reflexivity.
+  intros H1 H2. destruct q as [[]|[|[]]|[|[]]|[]|[]|[]|[] []]; try discriminate; destruct k; destruct m; split; reflexivity.
 Qed.
 Lemma sfold_inside cs : forall q m, is_sbol q = false -> is_sdir q = false -> is_sdir (fst (sfold (q, m) cs)) = false.
 Proof.
@@ -105,7 +106,7 @@ Definition is_hashk (k : cls) : bool := match k with kHash => true | _ => false 
 Lemma sline_fnb k cs :
   match fnb cs with
   | None => sfold (SBol k, mU) cs = (SBol k, mU)
-  | Some kh => if is_hashk kh then sfold (SBol k, mU) cs = (SDir k, mM)
+  | Some kh => if is_hashk kh then exists d, sfold (SBol k, mU) cs = (SDir k d, mM)
                else is_sdir (fst (sfold (SBol k, mU) cs)) = false
   end.
 Proof.
@@ -114,7 +115,7 @@ Proof.
   - assert (E : sstep (SBol k, mU) (cls_of c) = (SBol k, mU)) by (destruct (cls_of c); try discriminate; reflexivity).
     rewrite E. exact IH.
   - destruct (is_hashk (cls_of c)) eqn:H.
-    + destruct (cls_of c); try discriminate. cbn [sstep]. apply sfold_dir.
+    + destruct (cls_of c); try discriminate. cbn [sstep]. eexists. apply sfold_dir.
     + destruct (sstep (SBol k, mU) (cls_of c)) as [q' m'] eqn:E.
       apply sfold_inside;
         destruct (cls_of c); try discriminate; destruct k; cbn in E; inversion E; reflexivity.
@@ -171,34 +172,49 @@ Proof.
   - rewrite (blank_char_nonws c b W) in BL. discriminate.
 Qed.
 
-Definition cpp_stack (st : list cmode) : bool :=
-  match st with
-  | [CCpp; CTop] | [CDq; CCpp; CTop] | [CSq; CCpp; CTop] => true
-  | _ => false
+(* inside a directive line: the cleaner's stack against the scanner's sub-state *)
+Definition dstack (d : dsub) : list cmode :=
+  match d with
+  | DTxt => [CCpp; CTop]
+  | DSl => [CSlash; CCpp; CTop]
+  | DLc => [CInline; CCpp; CTop]
+  | DBlk => [CBlock; CCpp; CTop]
+  | DBlkSt => [CBstar; CBlock; CCpp; CTop]
+  | DDq => [CDq; CCpp; CTop]
+  | DSq => [CSq; CCpp; CTop]
   end.
 
 Lemma cat_dir_char c b : category b = CPPDIR -> category (app_char c b) = CPPDIR.
 Proof. rewrite !babs_cat, babs_char. unfold a_char. destruct (babs b); try discriminate; destruct (is_ws (cls_of c)); reflexivity. Qed.
 Lemma cat_dir_non c b : category b = CPPDIR -> category (app_non c b) = CPPDIR.
 Proof. rewrite !babs_cat, babs_non. destruct (babs b); try discriminate; reflexivity. Qed.
+Lemma cat_dir_space b : category b = CPPDIR -> category (app_space b) = CPPDIR.
+Proof. rewrite !babs_cat, babs_space. destruct (babs b); try discriminate; reflexivity. Qed.
 
-Lemma cproc_in_dir cs : forall st b k m, cpp_stack st = true -> category b = CPPDIR -> cguards (SDir k, m) cs = true ->
-  exists st' b', cprocess true (st, b) cs = Ok (st', b') /\ cpp_stack st' = true /\ category b' = CPPDIR.
+Ltac solve_cat HC := repeat (first [exact HC | apply cat_dir_char | apply cat_dir_non | apply cat_dir_space]).
+
+(* one character of a directive line, for either value of the directives_only flag *)
+Lemma cstep_dir fl d c b k m : category b = CPPDIR -> cguard (SDir k d, m) (cls_of c) = true ->
+  exists b', cstep fl (dstack d, b) c = Ok (dstack (dstep d (cls_of c)), b') /\ category b' = CPPDIR.
 Proof.
-  induction cs as [|c cs IH]; intros st b k m HS HC HG; [exists st, b; repeat split; assumption|].
+  intros HC HG. destruct d; unfold cstep, cstep1, dstack; destruct (cls_of c) eqn:K; try discriminate;
+    cbn [dstep dtxt]; eexists; (split; [reflexivity|solve_cat HC]).
+Qed.
+
+Lemma cproc_in_dir fl cs : forall d b k m, category b = CPPDIR -> cguards (SDir k d, m) cs = true ->
+  exists b', cprocess fl (dstack d, b) cs = Ok (dstack (dfold d cs), b') /\ category b' = CPPDIR.
+Proof.
+  induction cs as [|c cs IH]; intros d b k m HC HG; [exists b; split; [reflexivity|exact HC]|].
   cbn [cguards] in HG. apply andb_true_iff in HG. destruct HG as [G1 G2]. cbn [sstep] in G2.
-  cbn [cprocess].
-  assert (E : exists st1 b1, cstep true (st, b) c = Ok (st1, b1) /\ cpp_stack st1 = true /\ category b1 = CPPDIR).
-  { destruct st as [|[] [|[] [|[] [|? ?]]]]; try discriminate; unfold cstep, cstep1;
-      destruct (cls_of c) eqn:K; try discriminate;
-      eexists; eexists; (split; [reflexivity|split; [reflexivity|first [apply cat_dir_char; exact HC | apply cat_dir_non; exact HC]]]). }
-  destruct E as [st1 [b1 [E1 [E2 E3]]]]. rewrite E1. exact (IH st1 b1 k m E2 E3 G2).
+  cbn [cprocess]. destruct (cstep_dir fl d c b k m HC G1) as [b1 [E1 E2]]. rewrite E1.
+  exact (IH _ b1 k m E2 G2).
 Qed.
 
 Lemma cat_hash_blank c b : cls_of c = kHash -> is_blank b = true -> category (app_non c b) = CPPDIR.
 Proof.
   intros K. rewrite is_blank_abs, babs_cat, babs_non, K. destruct (babs b); cbn; congruence.
 Qed.
+
 (* only the two classes reachable from the empty buffer by white space *)
 Definition fresh (b : osl) : bool := match babs b with bE | bT => true | _ => false end.
 Lemma fresh_blank b : fresh b = true -> is_blank b = true.
@@ -206,22 +222,25 @@ Proof. unfold fresh. rewrite is_blank_abs. destruct (babs b); cbn; congruence. Q
 Lemma fresh_ws c b : is_ws (cls_of c) = true -> fresh b = true -> fresh (app_char c b) = true.
 Proof. unfold fresh. rewrite babs_char. unfold a_char. intros ->. destruct (babs b); cbn; congruence. Qed.
 
-Lemma cproc_dir cs : forall b k, fresh b = true -> fnb cs = Some kHash -> cguards (SBol k, mU) cs = true ->
-  exists st' b', cprocess true ([CTop], b) cs = Ok (st', b') /\ cpp_stack st' = true /\ category b' = CPPDIR.
+Lemma cproc_dir fl cs : forall b k, fresh b = true -> fnb cs = Some kHash -> cguards (SBol k, mU) cs = true ->
+  exists d b', cprocess fl ([CTop], b) cs = Ok (dstack d, b') /\ category b' = CPPDIR /\
+               sfold (SBol k, mU) cs = (SDir k d, mM).
 Proof.
   induction cs as [|c cs IH]; intros b k HF HH HG; [discriminate|].
   cbn [cguards] in HG. apply andb_true_iff in HG. destruct HG as [G1 G2].
-  cbn [fnb] in HH. cbn [cprocess]. destruct (is_ws (cls_of c)) eqn:W.
-  - assert (E : cstep true ([CTop], b) c = Ok ([CTop], app_char c b)).
+  cbn [fnb] in HH. cbn [cprocess]. rewrite sfold_cons. destruct (is_ws (cls_of c)) eqn:W.
+  - assert (E : cstep fl ([CTop], b) c = Ok ([CTop], app_char c b)).
     { unfold cstep, cstep1. destruct (cls_of c); try discriminate; reflexivity. }
-    rewrite E. apply (IH _ k); [apply fresh_ws; assumption|exact HH|].
+    rewrite E.
     assert (E2 : sstep (SBol k, mU) (cls_of c) = (SBol k, mU)) by (destruct (cls_of c); try discriminate; reflexivity).
-    rewrite E2 in G2. exact G2.
+    rewrite E2 in G2 |- *. apply IH; [apply fresh_ws; assumption|exact HH|exact G2].
   - injection HH as HH.
-    assert (E : cstep true ([CTop], b) c = Ok ([CCpp; CTop], app_non c b)).
+    assert (E : cstep fl ([CTop], b) c = Ok ([CCpp; CTop], app_non c b)).
     { unfold cstep, cstep1. rewrite HH, (fresh_blank b HF). reflexivity. }
-    rewrite E. rewrite HH in G2. cbn [sstep] in G2.
-    apply (cproc_in_dir cs _ _ k mM); [reflexivity|apply cat_hash_blank; [exact HH|apply fresh_blank; exact HF]|exact G2].
+    rewrite E. rewrite HH in G2 |- *. cbn [sstep] in G2 |- *.
+    destruct (cproc_in_dir fl cs DTxt (app_non c b) k mM) as [b' [E1 E2]];
+      [apply cat_hash_blank; [exact HH|apply fresh_blank; exact HF]|exact G2|].
+    exists (dfold DTxt cs), b'. split; [exact E1|]. split; [exact E2|apply sfold_dir].
 Qed.
 
 (* class of the collapsed line *)
@@ -280,21 +299,25 @@ Definition cout_ok (n : nat) (cs : list ascii) (l : list cll) : Prop :=
                else l = [{| c_lines := [n]; c_cat := SRC; c_text := collapse false cs |}]
   end.
 
-Lemma cpp_stack_newline st b : cpp_stack st = true -> top_is_block st = false /\ cnewline (st, b) = Ok ([CTop], b).
-Proof. destruct st as [|[] [|[] [|[] [|? ?]]]]; try discriminate; intros _; split; reflexivity. Qed.
+Lemma dir_newline d b k m : eguard (SDir k d, m) = true -> category b = CPPDIR ->
+  top_is_block (dstack d) = false /\ exists b', cnewline (dstack d, b) = Ok ([CTop], b') /\ category b' = CPPDIR.
+Proof.
+  intros HE HC. destruct d; try discriminate; (split; [reflexivity|]); unfold cnewline, dstack;
+    eexists; (split; [reflexivity|solve_cat HC]).
+Qed.
 
-Lemma c_line_wf n out cs nl k : cguards (SBol k, mU) cs = true ->
+Lemma c_line_wf n out cs nl k : cguards (SBol k, mU) cs = true -> eguard (sfold (SBol k, mU) cs) = true ->
   exists l, c_line true n (clean out) (cs, nl) = Ok (clean (out ++ l)) /\ cout_ok n cs l.
 Proof.
-  intros HG. pose proof (cguards_nobs _ _ HG) as HN.
+  intros HG HE. pose proof (cguards_nobs _ _ HG) as HN.
   unfold c_line. rewrite (body_nobs cs HN). cbn [andb negb clean cl_stk cl_cur cl_lines cl_out].
   unfold cout_ok. destruct (fnb cs) as [kh|] eqn:F; [destruct (is_hashk kh) eqn:H|].
   - (* directive *)
     assert (kh = kHash) by (destruct kh; try discriminate; reflexivity). subst kh.
-    destruct (cproc_dir cs osl0 k eq_refl F HG) as [st' [b' [E1 [E2 E3]]]].
-    rewrite E1. destruct (cpp_stack_newline st' b' E2) as [T1 T2]. rewrite T1. cbn [negb]. rewrite T2.
-    cbn [top_is_block negb]. unfold cflush. rewrite join0_cat, E3.
-    unfold is_blank. rewrite E3. cbn [app].
+    destruct (cproc_dir true cs osl0 k eq_refl F HG) as [d [b' [E1 [E3 ES]]]].
+    rewrite E1. rewrite ES in HE. destruct (dir_newline d b' k mM HE E3) as [T1 [b2 [T2 T3]]]. rewrite T1. cbn [negb]. rewrite T2.
+    cbn [top_is_block negb]. unfold cflush. rewrite join0_cat, T3.
+    unfold is_blank. rewrite T3. cbn [app].
     eexists. split; [reflexivity|]. eexists. reflexivity.
   - (* source *)
     rewrite (cproc_plain cs osl0 HN) by (intros _; rewrite F; intros E; injection E as E; subst; discriminate).
